@@ -1,6 +1,8 @@
 #!/bin/sh
-# Offline build of the verification harness (both profiles) against /repo's current tree.
+# Offline build of the verification harness (both profiles) against /repo's current tree, and of the
+# libFuzzer target used by the thorough tier (best effort: the quick tier does not need it).
 set -e
 cd "$(dirname "$0")"
 export CARGO_NET_OFFLINE=true
-exec ./check --build
+./check --build
+( cd harness/fuzz && cargo +nightly fuzz build -s none --fuzz-dir . >/dev/null 2>&1 ) || echo "note: fuzz target not built (thorough tier will retry)"
